@@ -362,6 +362,13 @@ def oracle(c, results: list[dict], http: bool = False) -> list[dict]:
             continue
         if not ast <= now:
             bad(i, "availabilityStartTime <= now", ast=ast)
+        if not sym:
+            # the start option *is* the availabilityStartTime: the instant printed/used is the instant requested
+            # (read here from the integers the request text was formatted from, not by dashlive), up to the
+            # truncation to a whole second; a stream that starts exactly now is moved back one day
+            req = start["utc"]
+            if not (req - US < ast <= req or (req - req % US == now and ast == req - req % US - DAY)):
+                bad(i, START_CLAUSE, ast=ast, requested=req, requested_text=start_text(start))
         if pub is not None:
             if not (ast <= pub <= now):
                 bad(i, "publishTime within [availabilityStartTime, now]", ast=ast, pub=pub)
@@ -425,6 +432,7 @@ def is_rollover(f: dict) -> bool:
     return a[0] != a[1] and 0 < p[0] - p[1] < period
 
 
+START_CLAUSE = "availabilityStartTime is the requested explicit start instant (whole second)"
 FLOAT_CLASS = "depth-clamp-float-rounding-beyond-2^33s"
 TSBD_CLAUSE = "0 <= timeShiftBufferDepth <= now - availabilityStartTime"
 FAT_CLAUSE = "firstAvailableTime = now - availabilityStartTime - timeShiftBufferDepth >= 0"
@@ -705,6 +713,8 @@ def boundary_cases(ctx):
 
 
 PHASES = [0, 1, 250_000, 499_999, 500_000, 750_000, 999_999]
+# minutes: ±HH:00, ±HH:30, ±HH:45, ±00:MM, the extremes of real zones and beyond
+OFFSET_GRID = [o * sgn for o in (60, 180, 210, 570, 345, 765, 45, 30, 1, 59, 720, 840, 870, 1439) for sgn in (1, -1)] + [0]
 GRID_DAYS = [(1970, 1, 2), (2023, 3, 1), (2023, 12, 31), (2024, 1, 1), (2024, 2, 29), (2024, 3, 1), (2036, 2, 7),
              (2038, 1, 19), (2040, 2, 6), (2100, 3, 1), (2242, 3, 17), (3000, 6, 1), (9999, 12, 31)]
 GRID_TOD = [0, 59, 60, 43200, 86399]             # seconds of the day
@@ -769,6 +779,13 @@ def grid_cases():
         n = day_us(y, 6, 15) + 1234567
         out.append({"nows": [n, n + 5 * US], "start": {"utc": n - 90 * US - 500_000, "off": -210}, "depth": 60,
                     "mup": 7, "leeway": None, "sd": 960, "ts": 240, "oracle_only": True})
+    # every sign × whole / fractional-hour UTC offset of an explicit start
+    for j, off in enumerate(OFFSET_GRID):
+        for frac in (0, 500_000):
+            k += 1
+            n = base + PHASES[k % len(PHASES)]
+            out.append({"nows": [n, n + US], "start": {"utc": n - 3600 * US - frac, "off": off}, "depth": [None, 30][k % 2],
+                        "mup": [None, 7, -1][k % 3], "leeway": None, "sd": 960, "ts": 240})
     far = day_us(3000, 6, 1) - 1
     for depth in (2 ** 53, 10 ** 11):
         out.append({"nows": [far], "start": "epoch", "depth": depth, "mup": 8, "leeway": None, "sd": 960, "ts": 240,
@@ -1303,6 +1320,24 @@ def ahead_http_cases(http: Http):
     return out
 
 
+def offset_http_cases(http: Http):
+    """an explicit start one hour old written with every sign × whole / fractional-hour UTC offset (URL-quoted
+    `+`), through every live template; URL and stored stream default"""
+    t = day_us(2024, 5, 6) + 25689 * US + 250_000
+    out = []
+    names = sorted(http.manifests)
+    for j, off in enumerate(OFFSET_GRID):
+        name = names[j % len(names)]
+        start = {"utc": t - 3600 * US - (500_000 if j % 2 else 0), "off": off}
+        c = {"manifest": name, "nows": [t, t + US], "depth": "absent", "mup": "absent"}
+        if j % 3:
+            c.update(stream="bbb", sd=http.bbb_ref[0], ts=http.bbb_ref[1], start=start)
+        else:
+            c.update(stream="tears", sd=960, ts=240, start=None, sdefaults={"start": start})
+        out.append(c)
+    return out
+
+
 def rollover_http_cases(ctx, http: Http):
     """sequences of real manifests across midnight / the first minute / month and year boundaries, for every
     template that renders publishTime: publishTime monotonicity and start stability on what is served"""
@@ -1348,7 +1383,7 @@ def ch_manifest(ctx) -> Channel:
         ch.errors.append(f"app boot: {type(e).__name__}: {e}")
         return ch
     rng = ctx.rng("manifest")
-    cases = fixed_http_cases(http) + defaults_http_cases(http) + ahead_http_cases(http) + \
+    cases = fixed_http_cases(http) + defaults_http_cases(http) + ahead_http_cases(http) + offset_http_cases(http) + \
         rollover_http_cases(ctx, http) + [gen_http_case(rng, http) for _ in range(ctx.scale(600, 8000))]
     try:
         evaluate_http(http, cases, ch)
@@ -1461,7 +1496,10 @@ def chain_eval(http: Http, c, model_lines: dict):
             # Layer C: the two documents are one history of the requested option set
             # (the followed request carries the resolved start as an explicit instant: the clauses about symbolic
             # start values speak about the first document only)
-            hist = dict(mc, nows=[n1, n2], start={"utc": r1["ast"], "off": r1["off"] or 0})
+            as_requested = vec is not None and vec == (start_token(mc["start"]), mc["depth"], mc["mup"]) and \
+                isinstance(mc["start"], str)
+            hist = dict(mc, nows=[n1, n2]) if as_requested else \
+                dict(mc, nows=[n1, n2], start={"utc": r1["ast"], "off": r1["off"] or 0})
             for f in oracle(hist, [r1, r2], http=True):
                 if f.get("index") != 0:
                     fails.append(dict(f, link=link, followed=tag))
@@ -1580,7 +1618,7 @@ def search(ctx, disagreements):
             if not (isinstance(got, int) and got >= 1):
                 return {"via": "mupdefault", "sd": d["sd"], "ts": d["ts"], "impl": str(got),
                         "clause": "minimumUpdatePeriod is a positive period"}
-    for c in seeds + boundary_cases(ctx) + [gen_case(rng, future_ok=False) for _ in range(ctx.scale(20000, 60000))]:
+    for c in seeds + [g for g in grid_cases() if not g.get("oracle_only")] + boundary_cases(ctx) + [gen_case(rng, future_ok=False) for _ in range(ctx.scale(20000, 60000))]:
         f = unlisted(direct_fails(c))        # roll-over step-backs are the open ledger entry, replayed separately
         if f:
             mini = shrink(c, lambda cc: bool(unlisted(direct_fails(cc))))
@@ -1602,7 +1640,7 @@ def search(ctx, disagreements):
                 return failure_record("chain", human_http(c), f, url=http.url(c))
         hseeds = [{k: v for k, v in d["case"].items() if k != "nows_iso"} for d in disagreements
                   if d.get("via") == "http" and "case" in d]
-        for c in hseeds + fixed_http_cases(http) + ahead_http_cases(http) + [gen_http_case(rng, http) for _ in range(ctx.scale(1500, 6000))]:
+        for c in hseeds + fixed_http_cases(http) + ahead_http_cases(http) + offset_http_cases(http) + [gen_http_case(rng, http) for _ in range(ctx.scale(1500, 6000))]:
             http.prepare(c)
             f = unlisted(http_fails(http, c))
             if f:
